@@ -95,6 +95,16 @@ ROUND8 = """IMPORTANT - already taken: in earlier rounds the changes listed belo
 """
 
 
+ROUND9 = """IMPORTANT - already taken: in earlier rounds the changes listed below were produced for this property. Do NOT repeat them or close variants (same line, same mechanism). This is the NINTH round, and in this round you produce only ONE change (directory m1 only; ignore what is said above about a second one) - take the time to make it the most subtle realistic change you can find. The checks being evaluated are model-based: abstract state machines of the library, bounded exhaustive exploration replayed on real objects, randomly generated and deterministic boundary objects / files / histories judged by an independent reference encoder-decoder, child interpreters for first-use effects, and by now hardened against histories, interleavings, compositions, boundary values, scale, environment, value coincidences, error paths, object identity, foreign file forms and second public names. Think adversarially about what such a checker still cannot see, e.g. -
+  * the SECOND call of an API on the same object behaving differently from the first (caches, memoised properties, generators consumed, flags set by the first call) where the second call is a different public method than the first;
+  * a difference between the stand-alone (Synth / Module.clone) and the in-project path of the same module that only shows for one module type or one field;
+  * Python-level protocols of the library's objects that users rely on: ==, hash, bool, len, iteration, `in`, copy.copy / deepcopy / pickle of modules, notes, patterns, projects, containers (ModuleList), and sorting of such objects;
+  * an interaction of exactly two features that are each well covered alone (e.g. a unit-dependent range together with a MetaModule mapping, a PatternClone of a pattern that is later bulk-edited, options together with controller MIDI bindings, links together with module flags);
+  * a value in the MIDDLE of a domain for which a table lookup, a rounding or a bit mask is special (not the ends, not the default, not a power of two).
+
+"""
+
+
 def main():
     rnd, root = sys.argv[1], sys.argv[2]
     props = [json.loads(l) for l in open(os.path.join(VERIF, "properties.jsonl"))]
@@ -104,7 +114,7 @@ def main():
         files = (p.get("anchors") or {}).get("files", [])
         txt = HEAD.format(wt=wt, pid=pid, title=p.get("title", ""), statement=p.get("statement", ""),
                           quant=(p.get("quantifier") or {}).get("text", ""), files=", ".join(map(str, files)))
-        txt += ROUND8 if rnd == "8" else ROUND7 if rnd == "7" else ROUND6 if rnd == "6" else ROUND5 if rnd == "5" else ROUND4
+        txt += ROUND9 if rnd == "9" else ROUND8 if rnd == "8" else ROUND7 if rnd == "7" else ROUND6 if rnd == "6" else ROUND5 if rnd == "5" else ROUND4
         k = 0
         for d in sorted(glob.glob(os.path.join(VERIF, "seeded", pid + "-*"))):
             nf = os.path.join(d, "notes.md")
